@@ -140,6 +140,18 @@ def run(ctx):
         pl = inner_loops[0]
         b = match(pat("range($n)"), pl.iter)
         if b is None:
+            # batched form: rows drawn up front with random.choices(.., k=count)
+            draws = [n for n in ast.walk(lp) if isinstance(n, ast.Call) and prog.external(hf.module, n.func) in ("random.choices", "random.sample")]
+            dedups = [n for n in ast.walk(lp) if isinstance(n, (ast.DictComp, ast.SetComp)) or (isinstance(n, ast.Call) and txt(n.func) in ("set", "dict", "dict.fromkeys", "Counter"))]
+            if len(draws) == 1 and prog.external(hf.module, draws[0].func) == "random.choices":
+                dst = par.stmt_of(draws[0])
+                dname = txt(dst.targets[0]) if isinstance(dst, ast.Assign) else None
+                for d in dedups:
+                    srcs = [txt(g_.iter) for g_ in d.generators] if isinstance(d, (ast.DictComp, ast.SetComp)) else [txt(a_) for a_ in d.args]
+                    if dname and any(dname in s_ for s_ in srcs):
+                        o.violated(hf, d, f"rows are drawn WITH replacement (`{txt(draws[0])}`) and then collapsed by `{txt(d)[:60]}...`: a vertex drawn twice gains only one stub, "
+                                          "so fewer stubs than the deficit are added and the total is not divisible by the motif size")
+                        return
             o.undecided(f"patch loop `{txt(pl.iter)}` is not range(count)", hf, pl)
             return
         cnt = rules.term_of(b["n"], sc)
